@@ -26,6 +26,19 @@ Section Model.
     map (fun a => (keyed (f_eq_key a) (i_get x (f_name a)),
                    keyed (f_eq_key a) (i_get y (f_name a)))) (eq_attrs attrs).
 
+  (** The TEXT of the generated method as a term: after the exact-class test
+      ([if other.__class__ is not self.__class__: return NotImplemented]) one [and] chain
+      of comparisons, each [self.n == other.n] ([ECmp n None]) or
+      [__attr_key_n(self.n) == __attr_key_n(other.n)] with the helper bound to key k
+      ([ECmp n (Some k)]); the empty chain is [return True].  The harness parses the real
+      generated source into this shape (script-level tie, [Corr.script_case_ok]). *)
+  Inductive eq_term := ECmp (n : name) (k : option keyid).
+  Definition make_eq_script (attrs : list fld) : list eq_term :=
+    map (fun a => ECmp (f_name a) (f_eq_key a)) (eq_attrs attrs).
+  (** meaning of the chain's operands for two instances *)
+  Definition script_operands (sc : list eq_term) (x y : inst val) : list (val * val) :=
+    map (fun t => match t with ECmp n k => (keyed k (i_get x n), keyed k (i_get y n)) end) sc.
+
   (** Python's [e1 and e2 and … and en]: operands are evaluated left to right; the
       value is the first falsy operand, else the last one; an exception propagates.
       With no operand the generated code is [return True].
